@@ -86,6 +86,8 @@ GRID_DESC = {
              "symbolic link to a sibling directory, vs. its dereferenced byte-identical copy elsewhere, five creators x library/CLI",
     "thorough": "same, plus totals around the 32,768,000-byte step",
 }
+GRID_DESC = {k: v + "; a payload containing a symbolic link cycle (loop -> .) addressed directly and through a symlinked parent directory: "
+             "refused both ways or described identically" for k, v in GRID_DESC.items()}
 
 
 def grid(tier):
@@ -99,7 +101,36 @@ def grid(tier):
                         "files": [{"path": ["disc1", "b.bin"], "size": half, "mode": "const", "seed": 5}],
                         "dirlinks": [{"path": ["disc2"], "target": "disc1"}]}
                 cases.append({"tree": tree, "P": None, "creator": creator, "route": route, "info_opts": {}, "variant": var})
+    for creator in ("TorrentFile", "TorrentFileV2", "Assembler3"):
+        cases.append({"kind": "cycle", "creator": creator})
     return cases
+
+
+def run_cycle(case):
+    """payload/{f, loop -> .}: the kernel ends the walk after 40 links *counted over the whole path*, so how deep a cycle is
+    followed depends on how many links the spelled prefix already contains.  Either spelling must give the same answer."""
+    target.reset()
+    with sandbox.Scratch("c08c") as scr:
+        real = os.path.join(scr, "real")
+        pay = os.path.join(real, "payload")
+        os.makedirs(pay)
+        with open(os.path.join(pay, "f"), "wb") as fd:
+            fd.write(b"x" * 20000)
+        os.symlink(".", os.path.join(pay, "loop"))
+        os.symlink("real", os.path.join(scr, "alias"))
+        res = []
+        for i, spelled in enumerate((pay, os.path.join(scr, "alias", "payload"))):
+            out = os.path.join(scr, "o%d.torrent" % i)
+            try:
+                target.create_lib(case["creator"], spelled, out, piece_length=16384)
+                res.append(("ok", vmeta.Meta.from_file(out).info_span))
+            except Exception as e:  # noqa: BLE001 - refusing a cycle is fine, as long as it does not depend on the spelling
+                res.append(("raised", type(e).__name__))
+    classes = ["symlink-cycle", "cycle-" + res[0][0]]
+    if res[0] != res[1]:
+        return Outcome(Violation("C08:cycle:spelling-dependent", "a payload with a symlink cycle gives %s directly and %s through a symlinked parent directory" % (
+            res[0][0] if res[0][0] == "raised" else "%d info bytes" % len(res[0][1]), res[1][0] if res[1][0] == "raised" else "%d info bytes" % len(res[1][1]))), True, classes)
+    return Outcome(None, True, classes)
 
 
 def spell(kind, root, cwd, tree):
@@ -204,6 +235,8 @@ def _skip_broken_links(directory, names):
 
 
 def run_case(case):
+    if case.get("kind") == "cycle":
+        return run_cycle(case)
     target.reset()
     tree = case["tree"]
     var = case["variant"]
